@@ -1,4 +1,503 @@
+//! C07 - feature-dependent operations are impossible before the feature is negotiated.
+//!
+//! Oracles: recording-handler call log (backend side) and peer byte counter (frontend / proxy
+//! side) per (feature subset, negotiation order, request). The gate table is written from the
+//! property statement (ops::FeOp::gate_pf, c04::ROp::gate_pf).
+
+use crate::c01::{self, make_reply, preload, BeOp};
+use crate::c04::{self, ROp, Sym};
+use crate::ops::{self, FeOp, Lent, ReplyKind};
+use crate::rec::Script;
+use crate::util;
 use crate::Cfg;
-pub fn run(_cfg: &Cfg) {
-    common::report::inconclusive("not implemented");
+use common::spec::{self, fe};
+use common::sys;
+use common::{jo, report, Rng, J};
+use std::os::unix::io::AsRawFd;
+
+use vhost::vhost_user::message::*;
+use vhost::vhost_user::{Backend, VhostUserFrontend};
+use vhost::VhostBackend;
+
+/// Protocol feature bits that gate something on the backend server (k = 10) ...
+const SRV_BITS: [u64; 10] = [
+    spec::PF_MQ,
+    spec::PF_LOG_SHMFD,
+    spec::PF_BACKEND_REQ,
+    spec::PF_PAGEFAULT,
+    spec::PF_CONFIG,
+    spec::PF_INFLIGHT_SHMFD,
+    spec::PF_RESET_DEVICE,
+    spec::PF_CONFIGURE_MEM_SLOTS,
+    spec::PF_SHARED_OBJECT,
+    spec::PF_SHMEM,
+];
+/// ... and on the frontend endpoint (k = 11; plus the two virtio conditions = 13 dimensions)
+const FE_BITS: [u64; 11] = [
+    spec::PF_MQ,
+    spec::PF_LOG_SHMFD,
+    spec::PF_BACKEND_REQ,
+    spec::PF_PAGEFAULT,
+    spec::PF_CONFIG,
+    spec::PF_INFLIGHT_SHMFD,
+    spec::PF_RESET_DEVICE,
+    spec::PF_CONFIGURE_MEM_SLOTS,
+    spec::PF_SHARED_OBJECT,
+    spec::PF_SHMEM,
+    spec::PF_DEVICE_STATE,
+];
+
+fn subset(bits: &[u64], mask: u64) -> u64 {
+    bits.iter().enumerate().filter(|(i, _)| mask >> i & 1 == 1).map(|(_, b)| *b).fold(0, |a, b| a | b)
+}
+
+fn gated_probes(rng: &mut Rng) -> Vec<ROp> {
+    c04::full_ops(rng)
+        .into_iter()
+        .filter(|o| o.gate_pf().is_some() || matches!(o, ROp::Fe(FeOp::SetVringEnable(..))))
+        .collect()
+}
+
+fn sym(op: ROp) -> Sym {
+    Sym { op, nr: false, fail: false, offer_pf: true }
+}
+
+// ---- backend server --------------------------------------------------------------------------
+fn server_subsets(cfg: &Cfg, rng: &mut Rng) {
+    let probes = gated_probes(rng);
+    report::extra("x_server_gated_requests", J::U(probes.len() as u64));
+    let dims = SRV_BITS.len() + 1; // + acked VHOST_USER_F_PROTOCOL_FEATURES (ring enable)
+    for mask in 0..(1u64 << dims) {
+        if !cfg.mine(mask) {
+            continue;
+        }
+        let pf = subset(&SRV_BITS, mask);
+        let ack_virtio_pf = mask >> SRV_BITS.len() & 1 == 1;
+        let virtio = if ack_virtio_pf { spec::VIRTIO_F_PROTOCOL_FEATURES | 1 } else { 1 };
+        let (peer, mut srv, be) = util::raw_server(Script { protocol_features: ops::ALL_PF, features: spec::VIRTIO_F_PROTOCOL_FEATURES | 3, ..Script::default() });
+        util::raw_negotiate(&peer, &mut srv, virtio, pf);
+        for p in &probes {
+            let admitted = match p.gate_pf() {
+                Some(bit) => pf & bit != 0,
+                None => ack_virtio_pf, // SET_VRING_ENABLE
+            };
+            let obs = match c04::send_sym(&peer, &mut srv, &be, &sym(p.clone()), spec::VIRTIO_F_PROTOCOL_FEATURES | 3) {
+                Ok(o) => o,
+                Err(pn) => {
+                    report::violation(&format!("C07:srv:{}:panic", p.name()), jo! {"panic" => pn.msg, "at" => pn.location}, cfg.replay(&format!("srv:{mask}")));
+                    return;
+                }
+            };
+            report::eval(1);
+            report::distinct(report::hash_mix(mask, report::hash_str(&p.name())));
+            report::count(if admitted { "srv.admitted" } else { "srv.refused" }, 1);
+            let called = obs.handler_calls.len();
+            let ok = if admitted { called == 1 && obs.handler_calls[0].method == p.method().unwrap_or("") } else { called == 0 && obs.result.starts_with("Err") };
+            if !ok {
+                report::violation(
+                    &format!("C07:srv:{}:{}", p.name(), if admitted { "negotiated-but-not-dispatched" } else { "dispatched-without-feature" }),
+                    jo! {"acked_protocol_features" => J::x64(pf), "acked_virtio_protocol_features_bit" => ack_virtio_pf, "request" => p.j(),
+                    "handler_calls" => obs.handler_calls.iter().map(|c| c.j()).collect::<Vec<J>>(), "handle_request" => obs.result.as_str()},
+                    cfg.replay(&format!("srv:{mask}")),
+                );
+            }
+            if mask % 97 == 0 {
+                report::sample(&format!("srv.{}", admitted), jo! {"side" => "backend-server", "acked_pf" => J::x64(pf), "virtio_pf_acked" => ack_virtio_pf, "request" => p.name(), "admitted" => admitted, "handler_calls" => called});
+            }
+            let mut o = obs;
+            for m in o.msgs.iter_mut() {
+                m.close_fds();
+            }
+        }
+    }
+}
+
+/// Negotiation orders: every sequence up to `depth` over the negotiation alphabet with a gated
+/// probe after every prefix; the expectation follows the *last* acknowledged values.
+fn server_orders(cfg: &Cfg, rng: &mut Rng) {
+    let probes = gated_probes(rng);
+    let sets = [0u64, spec::PF_CONFIG | spec::PF_MQ, ops::ALL_PF, spec::PF_RESET_DEVICE | spec::PF_SHMEM | spec::PF_LOG_SHMFD];
+    let mut alpha: Vec<Sym> = vec![
+        sym(ROp::Fe(FeOp::GetFeatures)),
+        sym(ROp::Fe(FeOp::SetFeatures(spec::VIRTIO_F_PROTOCOL_FEATURES | 1))),
+        sym(ROp::Fe(FeOp::SetFeatures(1))),
+        sym(ROp::Fe(FeOp::GetProtocolFeatures)),
+    ];
+    for s in sets {
+        alpha.push(sym(ROp::Fe(FeOp::SetProtocolFeatures(s))));
+    }
+    let depth = cfg.pick(3, 5);
+    let mut seqs: Vec<Vec<usize>> = vec![vec![]];
+    let mut all: Vec<Vec<usize>> = vec![vec![]];
+    for _ in 0..depth {
+        seqs = seqs.iter().flat_map(|p| (0..alpha.len()).map(move |i| { let mut q = p.clone(); q.push(i); q })).collect();
+        all.extend(seqs.iter().cloned());
+    }
+    for (si, seq) in all.iter().enumerate() {
+        if !cfg.mine(si as u64) {
+            continue;
+        }
+        let (peer, mut srv, be) = util::raw_server(Script { protocol_features: ops::ALL_PF, ..Script::default() });
+        let mut acked_pf = 0u64;
+        let mut acked_virtio = 0u64;
+        for i in seq {
+            let s = &alpha[*i];
+            match &s.op {
+                ROp::Fe(FeOp::SetFeatures(v)) => acked_virtio = *v,
+                ROp::Fe(FeOp::SetProtocolFeatures(v)) => acked_pf = *v,
+                _ => {}
+            }
+            if let Ok(mut o) = c04::send_sym(&peer, &mut srv, &be, s, spec::VIRTIO_F_PROTOCOL_FEATURES | 3) {
+                for m in o.msgs.iter_mut() {
+                    m.close_fds();
+                }
+            }
+        }
+        // the probe at the end of this prefix (every prefix of every sequence is itself enumerated)
+        let p = &probes[si % probes.len()];
+        let admitted = match p.gate_pf() {
+            Some(bit) => acked_pf & bit != 0,
+            None => acked_virtio & spec::VIRTIO_F_PROTOCOL_FEATURES != 0,
+        };
+        if let Ok(mut obs) = c04::send_sym(&peer, &mut srv, &be, &sym(p.clone()), spec::VIRTIO_F_PROTOCOL_FEATURES | 3) {
+            report::eval(1);
+            report::distinct(report::hash_mix(report::hash_str(&format!("order:{seq:?}")), report::hash_str(&p.name())));
+            report::count("srv.order_probes", 1);
+            let called = obs.handler_calls.len();
+            if (admitted && called != 1) || (!admitted && called != 0) {
+                report::violation(
+                    &format!("C07:srv-order:{}:{}", p.name(), if admitted { "negotiated-but-not-dispatched" } else { "dispatched-without-feature" }),
+                    jo! {"order" => seq.iter().map(|i| alpha[*i].short()).collect::<Vec<String>>(), "request" => p.j(), "acked_pf" => J::x64(acked_pf), "acked_virtio" => J::x64(acked_virtio), "handler_calls" => called},
+                    cfg.replay(&format!("srvorder:{si}")),
+                );
+            }
+            if si % 211 == 0 {
+                report::sample("srv.order", jo! {"side" => "backend-server", "order" => seq.iter().map(|i| alpha[*i].short()).collect::<Vec<String>>(), "probe" => p.name(), "admitted" => admitted});
+            }
+            for m in obs.msgs.iter_mut() {
+                m.close_fds();
+            }
+        }
+    }
+}
+
+/// The server always offers REPLY_ACK whatever the device's own feature set is.
+fn reply_ack_offer(cfg: &Cfg, rng: &mut Rng) {
+    for i in 0..64u64 {
+        let dev_pf = match i {
+            0 => 0,
+            1 => ops::ALL_PF & !spec::PF_REPLY_ACK,
+            _ => rng.next() & ((1 << 22) - 1) & !spec::PF_REPLY_ACK,
+        };
+        let (peer, mut srv, be) = util::raw_server(Script { protocol_features: dev_pf, features: spec::VIRTIO_F_PROTOCOL_FEATURES, ..Script::default() });
+        let _ = c04::send_sym(&peer, &mut srv, &be, &sym(ROp::Fe(FeOp::GetFeatures)), spec::VIRTIO_F_PROTOCOL_FEATURES);
+        be.lock().unwrap().script.protocol_features = dev_pf;
+        let obs = c04::send_sym(&peer, &mut srv, &be, &sym(ROp::Fe(FeOp::GetProtocolFeatures)), spec::VIRTIO_F_PROTOCOL_FEATURES);
+        report::eval(1);
+        report::distinct(report::hash_mix(0x7e91, dev_pf));
+        let ok = obs.as_ref().is_ok_and(|o| o.msgs.len() == 1 && o.msgs[0].body.len() == 8 && {
+            let v = spec::rd_u64(&o.msgs[0].body, 0);
+            v & spec::PF_REPLY_ACK != 0 && v & !spec::PF_REPLY_ACK == dev_pf
+        });
+        if !ok {
+            report::violation("C07:srv:get_protocol_features:reply-ack-not-offered", jo! {"device_protocol_features" => J::x64(dev_pf),
+                "reply" => obs.ok().map(|o| o.msgs.iter().map(|m| J::hex(&m.body)).collect::<Vec<J>>())}, cfg.replay("offer"));
+        }
+    }
+}
+
+// ---- frontend endpoint --------------------------------------------------------------------------
+struct FeState {
+    offered_virtio_pf: bool,
+    acked_virtio_pf: bool,
+    /// Some(bits) once SET_PROTOCOL_FEATURES went through
+    acked_pf: u64,
+}
+
+fn fe_allowed(op: &FeOp, st: &FeState) -> bool {
+    match op {
+        FeOp::GetProtocolFeatures | FeOp::SetProtocolFeatures(_) => st.offered_virtio_pf,
+        FeOp::SetVringEnable(..) => st.acked_virtio_pf,
+        // the shmfd form needs LOG_SHMFD; otherwise the legacy (ungated) form is sent
+        FeOp::SetLogBase(..) => true,
+        o => o.gate_pf().is_none_or(|bit| st.acked_pf & bit != 0),
+    }
+}
+
+fn fe_probe_ops(rng: &mut Rng) -> Vec<FeOp> {
+    let mut v = Vec::new();
+    for kind in 0..ops::N_OP_KINDS {
+        let op = loop {
+            let o = ops::rand_op(rng, 8, Some(kind));
+            if !o.locally_invalid(8) {
+                break o;
+            }
+        };
+        if op.gate_pf().is_some() || matches!(op, FeOp::SetVringEnable(..) | FeOp::GetProtocolFeatures | FeOp::SetProtocolFeatures(_) | FeOp::SetLogBase(..)) {
+            v.push(op);
+        }
+    }
+    v
+}
+
+/// Probe one op on a frontend in state `st`. Returns false if the endpoint must be rebuilt.
+fn fe_probe(cfg: &Cfg, f: &mut vhost::vhost_user::Frontend, peer: &std::os::unix::net::UnixStream, op: &FeOp, st: &FeState, case: &str, rng: &mut Rng) -> bool {
+    let log_shmfd = st.acked_pf & spec::PF_LOG_SHMFD != 0;
+    let allowed = fe_allowed(op, st);
+    let kind = op.reply_kind(log_shmfd);
+    // a reply is queued in any case so that a wrongly admitted call cannot hang the check
+    let mut rep = make_reply(op, kind, rng);
+    if matches!(op, FeOp::CheckDeviceState) {
+        rep.payload = spec::p_u64(0); // "no error" so that an admitted call succeeds
+    }
+    let needs_reply = kind != ReplyKind::Ack && kind != ReplyKind::Nothing;
+    if needs_reply {
+        preload(peer, op.code(), &rep.payload, rep.file.as_ref());
+    }
+    let mut lent = Lent::default();
+    let out = match util::catch(|| op.exec(f, &mut lent)) {
+        Ok(o) => o,
+        Err(p) => {
+            report::violation(&format!("C07:fe:{}:panic", op.name()), jo! {"panic" => p.msg, "at" => p.location}, cfg.replay(case));
+            return false;
+        }
+    };
+    let written = sys::inq(peer.as_raw_fd());
+    report::eval(1);
+    report::count(if allowed { "fe.allowed" } else { "fe.refused" }, 1);
+    let d = || jo! {"op" => op.j(), "offered_virtio_pf" => st.offered_virtio_pf, "acked_virtio_pf" => st.acked_virtio_pf, "acked_pf" => J::x64(st.acked_pf), "bytes_on_wire" => written, "result" => out.j()};
+    if !allowed {
+        if written != 0 || out.ok {
+            report::violation(&format!("C07:fe:{}:{}", op.name(), if written != 0 { "touched-wire-without-feature" } else { "succeeded-without-feature" }), d(), cfg.replay(case));
+        }
+        return false; // the queued reply is stale now
+    }
+    if matches!(op, FeOp::SetLogBase(..)) {
+        // interpretation (DESIGN C07): the shmfd *form* is what LOG_SHMFD gates
+        let m = spec::read_msg(peer.as_raw_fd(), 1000, 1 << 16);
+        let shm_form = m.complete() && m.body.len() == 16 && m.fds_first.len() == 1;
+        let mut m = m;
+        m.close_fds();
+        if shm_form != log_shmfd {
+            report::violation("C07:fe:set_log_base:shmfd-form-without-feature", d(), cfg.replay(case));
+        }
+        return log_shmfd == shm_form && out.ok;
+    }
+    if written == 0 || !out.ok {
+        report::violation(&format!("C07:fe:{}:refused-although-negotiated", op.name()), d(), cfg.replay(case));
+        return false;
+    }
+    let mut dr = sys::drain_nb(peer.as_raw_fd());
+    dr.close_fds();
+    true
+}
+
+fn fe_setup(st: &FeState, offered_pf: u64) -> (vhost::vhost_user::Frontend, std::os::unix::net::UnixStream) {
+    let (mut f, peer) = util::raw_frontend(8);
+    let offered = if st.offered_virtio_pf { spec::VIRTIO_F_PROTOCOL_FEATURES | 1 } else { 1 };
+    preload(&peer, fe::GET_FEATURES, &spec::p_u64(offered), None);
+    let _ = f.get_features();
+    let ack = if st.acked_virtio_pf { spec::VIRTIO_F_PROTOCOL_FEATURES | 1 } else { 1 };
+    let _ = f.set_features(ack);
+    if st.offered_virtio_pf {
+        preload(&peer, fe::GET_PROTOCOL_FEATURES, &spec::p_u64(offered_pf), None);
+        let _ = f.get_protocol_features();
+        let _ = f.set_protocol_features(VhostUserProtocolFeatures::from_bits_retain(st.acked_pf));
+    }
+    let mut d = sys::drain_nb(peer.as_raw_fd());
+    d.close_fds();
+    (f, peer)
+}
+
+fn frontend_subsets(cfg: &Cfg, rng: &mut Rng) {
+    let probes = fe_probe_ops(rng);
+    report::extra("x_frontend_gated_operations", J::U(probes.len() as u64));
+    let dims = FE_BITS.len() + 2;
+    for mask in 0..(1u64 << dims) {
+        if !cfg.mine(mask) {
+            continue;
+        }
+        let offered_virtio_pf = mask >> FE_BITS.len() & 1 == 1;
+        let acked_virtio_pf = offered_virtio_pf && mask >> (FE_BITS.len() + 1) & 1 == 1;
+        if !offered_virtio_pf && mask >> (FE_BITS.len() + 1) & 1 == 1 {
+            // acking an unoffered virtio bit: the endpoint masks acked features by offered ones
+        }
+        let st = FeState { offered_virtio_pf, acked_virtio_pf, acked_pf: if offered_virtio_pf { subset(&FE_BITS, mask) } else { 0 } };
+        // offered protocol features: everything, or a random set (the gate is on *acknowledged*)
+        let offered_pf = if mask % 3 == 0 { rng.next() & ((1 << 22) - 1) } else { ops::ALL_PF };
+        let case = format!("fe:{mask}");
+        let (mut f, mut peer) = fe_setup(&st, offered_pf);
+        for op in &probes {
+            report::distinct(report::hash_mix(mask | 1 << 40, report::hash_str(op.name())));
+            if matches!(op, FeOp::SetProtocolFeatures(_) | FeOp::GetProtocolFeatures | FeOp::GetQueueNum) {
+                // these change the state under test: probe them on a scratch endpoint
+                let (mut f2, p2) = fe_setup(&st, offered_pf);
+                fe_probe(cfg, &mut f2, &p2, op, &st, &case, rng);
+                continue;
+            }
+            if !fe_probe(cfg, &mut f, &peer, op, &st, &case, rng) {
+                (f, peer) = fe_setup(&st, offered_pf);
+            }
+        }
+        if mask % 501 == 0 {
+            report::sample("fe.subset", jo! {"side" => "frontend", "offered_virtio_pf" => offered_virtio_pf, "acked_virtio_pf" => acked_virtio_pf, "acked_pf" => J::x64(st.acked_pf),
+                "refused" => probes.iter().filter(|o| !fe_allowed(o, &st)).map(|o| o.name()).collect::<Vec<&str>>()});
+        }
+    }
+}
+
+/// Orders on the frontend: API call sequences over the negotiation calls with a gated probe at
+/// the end of every prefix.
+fn frontend_orders(cfg: &Cfg, rng: &mut Rng) {
+    let probes = fe_probe_ops(rng);
+    // alphabet: 0 get_features(offer PF) 1 get_features(no PF) 2 set_features(PF) 3 set_features(no PF)
+    //           4 get_protocol_features 5 set_protocol_features(ALL) 6 set_protocol_features(0) 7 set_protocol_features(CONFIG|MQ)
+    let depth = cfg.pick(3, 4);
+    let mut seqs: Vec<Vec<u8>> = vec![vec![]];
+    let mut all: Vec<Vec<u8>> = vec![vec![]];
+    for _ in 0..depth {
+        seqs = seqs.iter().flat_map(|p| (0..8u8).map(move |i| { let mut q = p.clone(); q.push(i); q })).collect();
+        all.extend(seqs.iter().cloned());
+    }
+    for (si, seq) in all.iter().enumerate() {
+        if !cfg.mine(si as u64) {
+            continue;
+        }
+        let (mut f, peer) = util::raw_frontend(8);
+        let mut st = FeState { offered_virtio_pf: false, acked_virtio_pf: false, acked_pf: 0 };
+        for a in seq {
+            match a {
+                0 | 1 => {
+                    let v = if *a == 0 { spec::VIRTIO_F_PROTOCOL_FEATURES | 1 } else { 1 };
+                    preload(&peer, fe::GET_FEATURES, &spec::p_u64(v), None);
+                    let _ = f.get_features();
+                    st.offered_virtio_pf = *a == 0;
+                }
+                2 | 3 => {
+                    let v = if *a == 2 { spec::VIRTIO_F_PROTOCOL_FEATURES | 1 } else { 1 };
+                    let _ = f.set_features(v);
+                    // "acknowledged" virtio bit = requested and offered at that moment
+                    st.acked_virtio_pf = *a == 2 && st.offered_virtio_pf;
+                }
+                4 => {
+                    if st.offered_virtio_pf {
+                        preload(&peer, fe::GET_PROTOCOL_FEATURES, &spec::p_u64(ops::ALL_PF), None);
+                    }
+                    let _ = f.get_protocol_features();
+                }
+                _ => {
+                    let v = match a {
+                        5 => ops::ALL_PF,
+                        6 => 0,
+                        _ => spec::PF_CONFIG | spec::PF_MQ,
+                    };
+                    let r = f.set_protocol_features(VhostUserProtocolFeatures::from_bits_retain(v));
+                    if st.offered_virtio_pf {
+                        if r.is_ok() {
+                            st.acked_pf = v;
+                        }
+                    } else if r.is_ok() {
+                        report::violation("C07:fe-order:set_protocol_features:succeeded-without-feature", jo! {"order" => format!("{seq:?}")}, cfg.replay(&format!("feorder:{si}")));
+                    }
+                }
+            }
+            let mut d = sys::drain_nb(peer.as_raw_fd());
+            d.close_fds();
+        }
+        let op = &probes[si % probes.len()];
+        report::distinct(report::hash_mix(report::hash_str(&format!("feorder:{seq:?}")), report::hash_str(op.name())));
+        report::count("fe.order_probes", 1);
+        fe_probe(cfg, &mut f, &peer, op, &st, &format!("feorder:{si}"), rng);
+        if si % 301 == 0 {
+            report::sample("fe.order", jo! {"side" => "frontend", "order" => format!("{seq:?}"), "probe" => op.name(), "allowed" => fe_allowed(op, &st)});
+        }
+    }
+}
+
+// ---- backend -> frontend proxy ---------------------------------------------------------------------
+fn proxy_gates(cfg: &Cfg, rng: &mut Rng) {
+    for so in [false, true] {
+        for sh in [false, true] {
+            for ra in [false, true] {
+                // also: flags toggled off again after having been on
+                for toggle in [false, true] {
+                    let (a, peer) = sys::pair();
+                    let b = Backend::from_stream(a);
+                    if toggle {
+                        b.set_shared_object_flag(!so);
+                        b.set_shmem_flag(!sh);
+                    }
+                    b.set_shared_object_flag(so);
+                    b.set_shmem_flag(sh);
+                    b.set_reply_ack_flag(ra);
+                    for k in 0..5u64 {
+                        let op = c01::rand_beop(rng, k);
+                        let allowed = if k < 3 { so } else { sh };
+                        let file = sys::memfd("proxy", 4096);
+                        if ra && allowed {
+                            preload(&peer, op.code(), &spec::p_u64(0), None);
+                        }
+                        let res = util::catch(|| op.exec(&b, &file));
+                        let written = sys::inq(peer.as_raw_fd());
+                        report::eval(1);
+                        report::distinct_str(&format!("proxy:{so}{sh}{ra}{toggle}:{}", op.name()));
+                        report::count(if allowed { "proxy.allowed" } else { "proxy.refused" }, 1);
+                        let ok = match (&res, allowed) {
+                            (Ok(Ok(_)), true) => written > 0,
+                            (Ok(Err(_)), false) => written == 0,
+                            _ => false,
+                        };
+                        if !ok {
+                            report::violation(&format!("C07:proxy:{}:{}", op.name(), if allowed { "refused-although-enabled" } else { "sent-while-disabled" }),
+                                jo! {"shared_object_enabled" => so, "shmem_enabled" => sh, "reply_ack" => ra, "bytes_on_wire" => written, "result" => format!("{res:?}")}, cfg.replay("proxy"));
+                        }
+                        report::sample(&format!("proxy.{allowed}"), jo! {"side" => "backend-proxy", "op" => op.name(), "shared_object_enabled" => so, "shmem_enabled" => sh, "allowed" => allowed, "bytes_on_wire" => written});
+                        let mut d = sys::drain_nb(peer.as_raw_fd());
+                        d.close_fds();
+                        let _: Option<BeOp> = None;
+                    }
+                }
+            }
+        }
+    }
+}
+
+pub fn run(cfg: &Cfg) {
+    report::assume("gate table transcribed from the property statement (operation -> protocol feature; ring enable -> acked VHOST_USER_F_PROTOCOL_FEATURES; protocol-feature exchange -> offered bit; device state gated on the frontend only)");
+    report::assume("SET_LOG_BASE: LOG_SHMFD gates the shmfd form (16-byte body + descriptor); without it the legacy u64 form is accepted as an ungated message");
+    let mut vrng = Rng::new(0xc07);
+    let mut rng = Rng::new(cfg.seed ^ 0x7007);
+    let parts: Vec<(&str, fn(&Cfg, &mut Rng))> = vec![
+        ("srv", server_subsets),
+        ("srvorder", server_orders),
+        ("offer", reply_ack_offer),
+        ("fe", frontend_subsets),
+        ("feorder", frontend_orders),
+        ("proxy", proxy_gates),
+    ];
+    for (name, f) in parts {
+        if let Some(o) = cfg.only.as_deref() {
+            if o != "all" && o.split(':').next() != Some(name) {
+                continue;
+            }
+        }
+        if (name == "offer" || name == "proxy") && cfg.shard != 0 && cfg.only.is_none() {
+            continue;
+        }
+        // probes use fixed argument values (vrng), random choices use the seeded stream
+        let r: &mut Rng = if name == "offer" || name == "proxy" { &mut rng } else { &mut vrng };
+        let mut c = cfg.clone();
+        if let Some(o) = &cfg.only {
+            // "srv:<mask>" style case ids select a single enumerated item
+            if let Some((_, idx)) = o.split_once(':') {
+                if let Ok(i) = idx.parse::<u64>() {
+                    c.only = None;
+                    c.nshards = u64::MAX;
+                    c.shard = i;
+                }
+            }
+        }
+        f(&c, r);
+    }
+    report::set_exhaustive(true);
 }
